@@ -73,6 +73,8 @@ def guarded(fn, timeout=30.0):
     """Run fn() with resets, watchdog and exit capture. Returns (status, value_or_message, output). A run that hits the watchdog is
     repeated once with ten times the limit, so that a loaded machine is not mistaken for non-termination (a real hang still hangs)."""
     global _CONFIRMED_HANGS
+    if _CONFIRMED_HANGS >= 2:
+        timeout = min(timeout, 3.0)      # the tree is already known to hang: do not wait long for the rest
     r = _guarded_once(fn, timeout)
     if r[0] == 'timeout' and _CONFIRMED_HANGS < 2:   # once hangs are confirmed in this process, later timeouts are believed at once
         r = _guarded_once(fn, 10 * timeout)
